@@ -358,7 +358,7 @@ pub fn run_check(prop: &Prop, tier: Tier) -> i32 {
                 if st.cases > 0 || st.violations_total > 0 {
                     println!("  dev unit={} cases={} violations={} notes={:?}", name, st.cases, st.violations_total, st.notes.iter().filter(|(k, _)| !k.starts_with("MACHINERY")).collect::<Vec<_>>());
                     for v in st.violations.iter().take(3) {
-                        println!("    what={} case={}", v.what, compact(&v.case));
+                        println!("    what={} case={} sequence={}", v.what, compact(&v.case), v.case.get("sequence").map(|x| compact(x)).unwrap_or_default());
                     }
                 }
             }
